@@ -1128,7 +1128,9 @@ func runFailure(id string, fs FailSpec) {
 			st := t.CP.A.Push(xs.Method, argOf(&xs), settingsOf(&xs, x.ID)...)
 			xo.Triple = protos.StatusTriple(st)
 			pushes := atomic.LoadInt64(&t.Fw[0].Pushes)
-			pxy.WaitCount(func() bool { return atomic.LoadInt64(&t.Fw[0].PushDone) > 0 && atomic.LoadInt64(&t.Fw[0].PushDone) >= pushes }, watchdog)
+			pxy.WaitCount(func() bool {
+				return atomic.LoadInt64(&t.Fw[0].PushDone) > 0 && atomic.LoadInt64(&t.Fw[0].PushDone) >= pushes
+			}, watchdog)
 			witness["forwarder_push_returned_code"] = atomic.LoadInt32(&t.Fw[0].LastPushCode)
 		}
 		checkHealthy("after")
@@ -1199,7 +1201,7 @@ func runFailure(id string, fs FailSpec) {
 type discard struct{}
 
 func (discard) Output(calldepth int, msgBytes []byte, loggerLevel erpc.LoggerLevel) {}
-func (discard) Flush() error                                                     { return nil }
+func (discard) Flush() error                                                        { return nil }
 
 func main() {
 	flag.Parse()
